@@ -209,7 +209,7 @@ func runContention(r *common.Run) int {
 		maxLen       int
 	}
 	confs := []conf{
-		{[]int{0, 0}, nil, "core", 4},        // two channels for one occupant address
+		{[]int{0, 0}, nil, "core", 5},        // two channels for one occupant address
 		{[]int{0, 0}, []int{10}, "plain", 3}, // … which may also ask for another nickname
 		{[]int{0, 10}, nil, "plain", 3},      // two nicknames of one room, each channel may ask for the other's
 		{[]int{0, 0}, nil, "full", 3},        // with cancelled calls and occupant presences
@@ -224,7 +224,7 @@ func runContention(r *common.Run) int {
 		}
 	}
 	n, pruned := 0, 0
-	stop := func() bool { return len(r.Failures) >= 80 || r.Hist["problem"] >= 25 }
+	stop := func() bool { return tooMany(r) }
 	for _, cf := range confs {
 		alpha := macroAlphabet(cf.addrs, cf.nicks, cf.kind)
 		// dead prefixes: an operation that does nothing in the state its prefix leads to (a Leave
